@@ -16,8 +16,8 @@ from ginsim.props import c01
 
 ID = 'C10'
 LEVEL = 'exploration'
-QUICK_RUNS = 5000
-THOROUGH_RUNS = 120000
+QUICK_RUNS = 20000
+THOROUGH_RUNS = 500000
 SHRINK_BUDGET = 250
 RULE = ('run i draws from Random("<seed>/C10/<i>") 1-4 probes whose signature '
         'defaults are gin.REQUIRED with probability 0.35 (any position incl. '
